@@ -36,6 +36,9 @@ pub struct FaultyRead<'a> {
     pub max_request: usize,
     /// set when a persistent error was delivered (observable after the reader took ownership)
     pub err_flag: Option<std::sync::Arc<std::sync::atomic::AtomicBool>>,
+    /// logical step bound: after this many read/seek calls the source fails and raises `budget_flag`
+    pub call_budget: Option<usize>,
+    pub budget_flag: Option<std::sync::Arc<std::sync::atomic::AtomicBool>>,
 }
 
 impl<'a> FaultyRead<'a> {
@@ -50,7 +53,30 @@ impl<'a> FaultyRead<'a> {
             delivered_interrupts: 0,
             max_request: 0,
             err_flag: None,
+            call_budget: None,
+            budget_flag: None,
         }
+    }
+
+    /// Installs a bound on the number of calls a reader may make on this source. A reader that
+    /// exceeds it is doing unbounded work on bounded input.
+    pub fn with_budget(mut self, calls: usize) -> (Self, std::sync::Arc<std::sync::atomic::AtomicBool>) {
+        let f = std::sync::Arc::new(std::sync::atomic::AtomicBool::new(false));
+        self.call_budget = Some(calls);
+        self.budget_flag = Some(f.clone());
+        (self, f)
+    }
+
+    fn over_budget(&mut self) -> bool {
+        if let Some(b) = self.call_budget {
+            if self.calls > b {
+                if let Some(f) = &self.budget_flag {
+                    f.store(true, std::sync::atomic::Ordering::SeqCst);
+                }
+                return true;
+            }
+        }
+        false
     }
 
     fn mark_err(&mut self) {
@@ -77,6 +103,9 @@ impl Read for FaultyRead<'_> {
         let call = self.calls;
         self.calls += 1;
         self.max_request = self.max_request.max(buf.len());
+        if self.over_budget() {
+            return Err(io::Error::other("harness: source call budget exceeded"));
+        }
         if let Some((c, k)) = self.plan.err_at_call {
             if call >= c {
                 self.mark_err();
@@ -119,6 +148,10 @@ impl Read for FaultyRead<'_> {
 
 impl Seek for FaultyRead<'_> {
     fn seek(&mut self, pos: SeekFrom) -> io::Result<u64> {
+        self.calls += 1;
+        if self.over_budget() {
+            return Err(io::Error::other("harness: source call budget exceeded"));
+        }
         let end = self.end() as i64;
         let new = match pos {
             SeekFrom::Start(p) => p as i64,
